@@ -34,7 +34,8 @@ ASSUMPTIONS = [
 def case_strategy(draw, ctx):
     shape = [draw(st.integers(3, 9)) for _ in range(3)]
     allow_bloch = draw(st.integers(0, 3)) == 0
-    faces = draw(scenes.faces_strategy(kinds=("none", "pec", "pmc", "periodic"), allow_bloch=allow_bloch))
+    faces = draw(scenes.faces_strategy(kinds=("none", "pec", "pmc", "periodic"), allow_bloch=allow_bloch,
+                                       mixed_periodic=True))
     has_bloch = any(f["kind"] == "bloch" for f in faces.values())
     grid = draw(scenes.grid_strategy(shape, faces))
     tier = draw(st.sampled_from(["iso", "diag"]))
@@ -182,7 +183,7 @@ def body(ctx, case):
 
 
 SUBS = [
-    Sub(name="energy", body=body, strategy=lambda ctx: case_strategy(ctx), quick=36, thorough=2400,
+    Sub(name="energy", body=body, strategy=lambda ctx: case_strategy(ctx), quick=48, thorough=2400,
         lanes=("f64", "f32"), f32_fraction=0.25, quick_shards=2,
         rule="closed random scene, energy invariant over the step history"),
 ]
